@@ -326,9 +326,9 @@ def rule_R6(P, rep):
                                path is None, "a return is reachable without `*%s = ABTI_xstream_get_local(%s)` (blocks %s): the "
                                "caller keeps the stream it blocked on" % (ppl, var, path), loc=F.loc(nid),
                                site="%s/refresh/%s" % (F.name, nd["fn"]))
-    rep.need(n >= 5, "only %d switch sites in pp_local functions" % n)
+    rep.need(n >= 4, "only %d switch sites in pp_local functions" % n)
     # same for ABTI_xstream **pp_local_xstream helpers of abti_ythread.h is C02.R4
-    rep.min_instances("R6", 5)
+    rep.min_instances("R6", 4)
 
 
 def run(P, rep, tier):
